@@ -9,7 +9,10 @@ S=$(mktemp -d /tmp/fmut.XXXXXX)
 trap 'rm -rf "$S"' EXIT
 mkdir -p "$S/repo"
 cp -r /repo/src /repo/Cargo.toml /repo/Cargo.lock "$S/repo/"
-( cd "$S/repo" && git init -q . && git apply --whitespace=nowarn "$PATCH" ) || { echo "patch does not apply"; exit 3; }
+# a change written against an earlier /repo HEAD (before a later hook commit) may need its rebased
+# version (patch.rebased.diff next to it) or fuzzy context matching
+RB="$(dirname "$PATCH")/$(basename "$PATCH" .diff).rebased.diff"
+( cd "$S/repo" && git init -q . && { git apply --whitespace=nowarn "$PATCH" 2>/dev/null || { [ -f "$RB" ] && git apply --whitespace=nowarn "$RB"; } || patch -s -f -p1 -F3 --no-backup-if-mismatch < "$PATCH"; } ) || { echo "patch does not apply"; exit 3; }
 T="${MUT_TARGET:-/tmp/fmut_target}"
 mkdir -p "$T"
 FLOUNDER_SRC="$S/repo/src" VERIF_TARGET="$T" VERIF_OUT="$S" "$(dirname "$(readlink -f "$0")")/../check" "$ID" "$TIER" > "$S/out.txt" 2>&1
